@@ -77,5 +77,5 @@ func (r *componentRegistry) isRelation(tp reflect.Type) bool {
 		return false
 	}
 	field := tp.Field(0)
-	return field.Type == relationType && field.Name == relationType.Name()
+	return field.Anonymous && field.Type == relationType
 }
